@@ -71,20 +71,12 @@ def check_alive_flag(ctx, rule):
     return dp
 
 
-def run(ctx):
+def check_delete_id(ctx, rule2, rule3):
+    """delete_id handling in Message.resolve: destroy iff wl_display.delete_id, on the latest incarnation of the named id, with
+    the annotation being that very object.  Also used by C02 (the subject of delete_id is attributed, ids become reusable)."""
     repo = ctx.repo
-    ctx.decided = ['C03.1 writers of alive', 'C03.2 who destroys', 'C03.3 annotation', 'C03.4 one alive per id',
-                   'C03.5 server range', 'C03.6 lifespan']
-    ctx.undecided = ['display rounding of the lifespan']
-    ctx.assumptions = ['server id range 0xff000000 (Wayland protocol, frozen)', 'no monkey-patching (checked)']
-    f_destroy = repo.func('ObjectBase.destroy')
-    f_create = repo.func('ConnectionImpl.create_object')
     f_mres = repo.func('message.Message.resolve')
-
-    dp = check_alive_flag(ctx, 'C03.1')
-
-    # ---- C03.2 who destroys ------------------------------------------------------------------------
-    check_callers(ctx, 'C03.2', 'destroy', {'Message.resolve', 'ConnectionImpl.create_object'}, floor=2)
+    is_destroy = lambda e: e.kind == 'call' and e.ftext and e.ftext.endswith('.destroy')
     mpaths = paths_of(repo, f_mres, asserts='ignore', unroll=1)
 
     def m_del(a):
@@ -103,7 +95,7 @@ def run(ctx):
     is_destroy = lambda e: e.kind == 'call' and e.ftext and e.ftext.endswith('.destroy')
     probs = check_reach(mpaths, is_destroy, m_del, lambda F: F['display'] and F['delete_id'] and F['has_args'],
                         universe=['display', 'delete_id', 'has_args'])
-    ctx.check(not probs, 'C03.2', 'Message.resolve:destroy-iff-delete_id', f_mres.loc(),
+    ctx.check(not probs, rule2, 'Message.resolve:destroy-iff-delete_id', f_mres.loc(),
               'destroy is reached iff the target is the connection\'s wl_display and the message is delete_id (with an argument)',
               'destroy reached=%s in scenario %s' % ((probs[0][2], probs[0][1]) if probs else ('', '')))
     nd = 0
@@ -112,21 +104,39 @@ def run(ctx):
             if is_destroy(e):
                 nd += 1
                 recv = norm(e.recv)
-                ctx.check(recv == 'conn.retrieve_object(self.args[0].value, -1, None)', 'C03.2', 'delete_id:object', f_mres.loc(e.node),
+                ctx.check(recv == 'conn.retrieve_object(self.args[0].value, -1, None)', rule2, 'delete_id:object', f_mres.loc(e.node),
                           'the destroyed object is the latest incarnation of the id named by the first argument',
                           'the destroyed object is %s' % recv[:120])
-                ctx.check(e.argtext(0) == 'self.timestamp', 'C03.2', 'delete_id:time', f_mres.loc(e.node),
+                ctx.check(e.argtext(0) == 'self.timestamp', rule2, 'delete_id:time', f_mres.loc(e.node),
                           'destroy time is the time of the delete_id message', 'destroy time is %s' % e.argtext(0))
                 # ---- C03.3: the annotation is that very object
                 st = [x for x in p.events if x.kind == 'store' and x.target == 'self.destroyed_obj']
-                ctx.check(len(st) == 1 and norm(st[0].value) == recv, 'C03.3', 'delete_id:annotation-same-object', f_mres.loc(e.node),
+                ctx.check(len(st) == 1 and norm(st[0].value) == recv, rule3, 'delete_id:annotation-same-object', f_mres.loc(e.node),
                           'destroyed_obj is the very object destroy() is called on',
                           'destroyed_obj <- %s but destroy() is called on %s' % ([norm(x.value) for x in st], recv))
         if not any(is_destroy(e) for e in p.events):
-            ctx.check(not any(x.kind == 'store' and x.target == 'self.destroyed_obj' for x in p.events), 'C03.3',
+            ctx.check(not any(x.kind == 'store' and x.target == 'self.destroyed_obj' for x in p.events), rule3,
                       'resolve:no-annotation-without-destroy', f_mres.loc(), 'no destruction annotation on a path without destroy')
-    ctx.floor('C03.2', nd, 1, 'destroy call on the delete_id path')
+    ctx.floor(rule2, nd, 1, 'destroy call on the delete_id path')
 
+    return is_destroy
+
+
+def run(ctx):
+    repo = ctx.repo
+    ctx.decided = ['C03.1 writers of alive', 'C03.2 who destroys', 'C03.3 annotation', 'C03.4 one alive per id',
+                   'C03.5 server range', 'C03.6 lifespan']
+    ctx.undecided = ['display rounding of the lifespan']
+    ctx.assumptions = ['server id range 0xff000000 (Wayland protocol, frozen)', 'no monkey-patching (checked)']
+    f_destroy = repo.func('ObjectBase.destroy')
+    f_create = repo.func('ConnectionImpl.create_object')
+    f_mres = repo.func('message.Message.resolve')
+
+    dp = check_alive_flag(ctx, 'C03.1')
+
+    # ---- C03.2 who destroys ------------------------------------------------------------------------
+    check_callers(ctx, 'C03.2', 'destroy', {'Message.resolve', 'ConnectionImpl.create_object'}, floor=2)
+    is_destroy = check_delete_id(ctx, 'C03.2', 'C03.3')
     cpaths = paths_of(repo, f_create)
 
     def m_create(a):
